@@ -338,6 +338,50 @@ Proof.
     replace (S (i - 1)) with i by lia. reflexivity.
   - cbv beta in E. rewrite E. cbv beta. rewrite Nat.sub_0_r. reflexivity.
 Qed.
+(* ---- totality of __call__ on floats: a float or ValueError, for every real x ---- *)
+Lemma find_seq_spec (P : nat -> bool) : forall r m,
+  match find P (seq m r) with
+  | Some j => (m <= j < m + r)%nat /\ P j = true /\ (forall j', (m <= j' < j)%nat -> P j' = false)
+  | None => forall j, (m <= j < m + r)%nat -> P j = false
+  end.
+Proof.
+  induction r as [|r IH]; intro m; simpl.
+  - intros j Hj. lia.
+  - destruct (P m) eqn:E.
+    + split; [lia | split; [exact E | intros; lia]].
+    + specialize (IH (S m)). destruct (find P (seq (S m) r)) as [j|].
+      * destruct IH as (A & B & C). split; [lia | split; [exact B |]].
+        intros j' Hj'. destruct (Nat.eq_dec j' m) as [-> | N]; [exact E | apply C; lia].
+      * intros j Hj. destruct (Nat.eq_dec j m) as [-> | N]; [exact E | apply IH; lia].
+Qed.
+
+Definition near (x : R) (j : nat) : bool := if Rlt_dec (Rabs (x - xf j)) tol0 then true else false.
+Definition first_hit (x : R) : option nat := find (near x) (seq 0 (List.length xs)).
+(* the value __call__ returns when it returns one: the ordinate of the first node closer than tol, else Horner *)
+Definition Icall (x : R) : R :=
+  match first_hit x with
+  | Some j => yf j
+  | None => hornerN xf (nthR tbl) 0 0 (List.length xs - 1) x
+  end.
+
+Lemma call_hit x j : first_hit x = Some j -> Interpolation___call__ Rops T (VFloat x) = VFloat (yf j).
+Proof.
+  intros Hf. pose proof (find_seq_spec (near x) (List.length xs) 0) as Sp. fold (first_hit x) in Sp.
+  rewrite Hf in Sp. destruct Sp as (Hj & Ht & Hb).
+  unfold Interpolation___call__, tobj, flist.
+  grun. enter_range.
+  match goal with |- ?f _ _ = _ =>
+     let g := open_constr:(scan_fix _ _ _) in unify f g; change f with g end.
+  rewrite (scan_hit _ _ _ (List.length xs) 0%nat _ j); [| lia | |].
+  - cbv beta. getf. rewrite (getitem_flist ys j) by lia. reflexivity.
+  - intros j' Hj'. cbv beta. getf.
+    assert (HS : tol0 <= Rabs (x - xf j')).
+    { specialize (Hb j' ltac:(lia)). unfold near in Hb. destruct (Rlt_dec (Rabs (x - xf j')) tol0); [discriminate | lra]. }
+    grun. rewrite (proj2 (Rltb_false _ _)) by exact HS. reflexivity.
+  - cbv beta. getf. grun. rewrite (proj2 (Rltb_true _ _)); [reflexivity|].
+    unfold near in Ht. destruct (Rlt_dec (Rabs (x - xf j)) tol0); [assumption | discriminate].
+Qed.
+
 (* outside the table (and not within tol of a node): ValueError *)
 Lemma call_outside x : (0 < List.length xs)%nat ->
   x < xf 0 \/ xf (List.length xs - 1) < x ->
@@ -365,6 +409,27 @@ Proof.
     + assert (Hge : xf 0 <= x) by lra. assert (Hhi' : xf (List.length xs - 1) < x) by exact Hhi.
       grun. reflexivity.
 Qed.
+Lemma call_total x : (0 < List.length xs)%nat ->
+  Interpolation___call__ Rops T (VFloat x) = VFloat (Icall x)
+  \/ Interpolation___call__ Rops T (VFloat x) = VErr ValueError.
+Proof.
+  intro Hn. unfold Icall. destruct (first_hit x) as [j|] eqn:Hf.
+  - left. apply call_hit. exact Hf.
+  - pose proof (find_seq_spec (near x) (List.length xs) 0) as Sp. fold (first_hit x) in Sp. rewrite Hf in Sp.
+    assert (Haway : forall i, (i < List.length xs)%nat -> tol0 <= Rabs (x - xf i)).
+    { intros i Hi. specialize (Sp i ltac:(lia)). unfold near in Sp.
+      destruct (Rlt_dec (Rabs (x - xf i)) tol0); [discriminate | lra]. }
+    destruct (Rlt_dec x (xf 0)) as [Lo | Lo]; [right; apply call_outside; auto |].
+    destruct (Rlt_dec (xf (List.length xs - 1)) x) as [Hi | Hi]; [right; apply call_outside; auto |].
+    left. apply call_horner; auto; lra.
+Qed.
+
+Lemma first_x : (0 < List.length xs)%nat ->
+  py_getitem Rops (get_field cInterpolation 0 T) (VInt 0) = VFloat (xf 0).
+Proof. intro H. unfold tobj, flist. getf. apply getitem_first. exact H. Qed.
+Lemma last_x : (0 < List.length xs)%nat ->
+  py_getitem Rops (get_field cInterpolation 0 T) (VInt (-1)) = VFloat (xf (List.length xs - 1)).
+Proof. intro H. unfold tobj, flist. getf. apply getitem_last. exact H. Qed.
 End Table.
 
 (* ------------------------------------------------------------------ end-to-end statements *)
